@@ -1,20 +1,73 @@
 """Sidecar contracts for /repo/ural/lru/stems.py::lru_stems_from_parsed_url, conversion.py::lru_to_url, serialization.py (C12, C13 extras)."""
 from contracts._platform import RE_LIB, URL_ATTRS, BOUND
 
+# ---------------------------------------------------------------------------------------------------------------------------
+# functional contract of lru_stems_from_parsed_url: WHICH stems, in WHICH order (C12: nothing is lost; C13: the order is the hierarchy)
+N0 = "unpack(parsed_url, 1, 'Str')"                                      # netloc as given
+AUTH = "%s.split('@', 1)[0]" % N0
+NA = "ite('@' in %s, %s.split('@', 1)[1], %s)" % (N0, N0, N0)            # netloc without userinfo
+NL = "uf('re_split', 'Seq[Str]', PORT_SPLITTER, %s)" % NA                 # [host] or [host, port]
+USER = "ite('@' in %s, opt(ite(':' in %s, %s.split(':', 1)[0], %s)), none('Str'))" % (N0, AUTH, AUTH, AUTH)
+PW = "ite('@' in %s and ':' in %s, opt(%s.split(':', 1)[1]), none('Str'))" % (N0, AUTH, AUTH)
+SCHEME, PATH, QUERY, FRAG = ("unpack(parsed_url, %d, 'Str')" % i for i in (0, 2, 3, 4))
+SS = "uf('split_suffix', 'Opt[Tuple[Str,Str]]', parsed_url)"
+NORMALLY = "(not suffix_aware or %s is None)" % SS
+HS = "%s[0].split('.')" % NL
+DS = "some(%s)[0].split('.')" % SS
+PS = "%s.split('/')" % PATH
+HAS_S, HAS_T = "b2i(%s != '')" % SCHEME, "b2i(len(%s) == 2)" % NL
+HAS_Q, HAS_F, HAS_U, HAS_W = "b2i(%s != '')" % QUERY, "b2i(%s != '')" % FRAG, "b2i(truthy(%s))" % USER, "b2i(%s is not None)" % PW
+STEMS_ENSURES = [
+    # scheme, then port
+    "implies(%s != '', result[0] == 's:' + %s)" % (SCHEME, SCHEME),
+    "implies(len(%s) == 2, result[%s] == 't:' + %s[1])" % (NL, HAS_S, NL),
+    "g_nh == %s + %s" % (HAS_S, HAS_T),
+    # host: most significant label first. Plain: the labels of the host reversed (a special host as one stem)
+    "implies(%s and uf('is_special_host', 'Bool', %s[0]), g_np == g_nh + 1 and result[g_nh] == 'h:' + %s[0])" % (NORMALLY, NL, NL),
+    "implies(%s and not uf('is_special_host', 'Bool', %s[0]), g_np == g_nh + len(%s)"
+    " and forall('m', implies(g_nh <= m and m < g_np, result[m] == 'h:' + %s[len(%s) - 1 - (m - g_nh)]), result[m]))" % (NORMALLY, NL, HS, HS, HS),
+    # suffix-aware: the public suffix as ONE stem, then the labels before it reversed
+    "implies(not %s, result[g_nh] == 'h:' + some(%s)[1])" % (NORMALLY, SS),
+    "implies(not %s and some(%s)[0] == '', g_np == g_nh + 1)" % (NORMALLY, SS),
+    "implies(not %s and some(%s)[0] != '', g_np == g_nh + 1 + len(%s)"
+    " and forall('m', implies(g_nh + 1 <= m and m < g_np, result[m] == 'h:' + %s[len(%s) - 1 - (m - g_nh - 1)]), result[m]))" % (NORMALLY, SS, DS, DS, DS),
+    # path: one stem per segment after the leading '/', empty segments included, in order
+    "g_nq == g_np + len(%s) - 1" % PS,
+    "forall('m', implies(g_np <= m and m < g_nq, result[m] == 'p:' + %s[m - g_np + 1]), result[m])" % PS,
+    # then query, fragment, user, password - each iff present (an empty password is a password), in this order, nothing else
+    "len(result) == g_nq + %s + %s + %s + %s" % (HAS_Q, HAS_F, HAS_U, HAS_W),
+    "implies(%s != '', result[g_nq] == 'q:' + %s)" % (QUERY, QUERY),
+    "implies(%s != '', result[g_nq + %s] == 'f:' + %s)" % (FRAG, HAS_Q, FRAG),
+    "implies(truthy(%s), result[g_nq + %s + %s] == 'u:' + some(%s))" % (USER, HAS_Q, HAS_F, USER),
+    "implies(%s is not None, result[g_nq + %s + %s + %s] == 'w:' + some(%s))" % (PW, HAS_Q, HAS_F, HAS_U, PW),
+]
+
+
+def app_loop(tag, seq_name, before=(), after=()):
+    """loop that appends tag + x for every x of the iterated sequence: append-only, element-wise"""
+    return {"index": "g_i", "seq": seq_name, "before": ["g_S = lru"] + list(before), "after": list(after), "invariant": [
+        "len(lru) == len(g_S) + g_i",
+        "forall('m', implies(0 <= m and m < len(g_S), lru[m] == g_S[m]), lru[m])",
+        "forall('m', implies(len(g_S) <= m and m < len(lru), lru[m] == '%s' + %s[m - len(g_S)]), lru[m])" % (tag, seq_name),
+    ]}
+
+
 MODULE = {
     "file": "ural/lru/stems.py", "auto": True, "bound": dict(BOUND, m="Int"),
     "obj_attrs": dict(URL_ATTRS),
     "library": dict(RE_LIB, **{
         "Obj.split": {"params": ["string"], "receiver": "pattern", "types": {"pattern": "Obj", "string": "Str"}, "returns": "Seq[Str]",
-                      "ensures": ["len(result) >= 1"]},
-        "split_suffix": {"params": ["url"], "types": {"url": "Obj"}, "returns": "Opt[Tuple[Str,Str]]", "raises": {"ValueError": None}, "ensures": []},
-        "is_special_host": {"params": ["hostname"], "types": {"hostname": "Str"}, "returns": "Bool", "ensures": []},
+                      "ensures": ["len(result) >= 1", "result == uf('re_split', 'Seq[Str]', pattern, string)"]},
+        "split_suffix": {"params": ["url"], "types": {"url": "Obj"}, "returns": "Opt[Tuple[Str,Str]]", "raises": {"ValueError": None},
+                         "ensures": ["result == uf('split_suffix', 'Opt[Tuple[Str,Str]]', url)"]},
+        "is_special_host": {"params": ["hostname"], "types": {"hostname": "Str"}, "returns": "Bool", "ensures": ["result == uf('is_special_host', 'Bool', hostname)"]},
     }),
     "functions": {
         "lru_stems_from_parsed_url": {
             "types": {"parsed_url": "Obj", "suffix_aware": "Bool", "scheme": "Str", "netloc": "Str", "path": "Str", "query": "Str", "fragment": "Str",
                       "lru": "Seq[Str]", "user": "Opt[Str]", "password": "Opt[Str]", "auth": "Str", "port": "Str", "should_process_normally": "Bool",
-                      "split_result": "Opt[Tuple[Str,Str]]", "domain": "Str", "suffix": "Str", "element": "Str", "g_netloc": "Seq[Str]"},
+                      "split_result": "Opt[Tuple[Str,Str]]", "domain": "Str", "suffix": "Str", "element": "Str", "g_netloc": "Seq[Str]",
+                      "g_S": "Seq[Str]", "g_X": "Seq[Str]", "g_i": "Int", "g_nh": "Int", "g_np": "Int", "g_nq": "Int"},
             "rebinds": {"netloc": {}},
             # a 5-tuple (SplitResult or plain tuple) of strings
             "param_meta": {"parsed_url": {"unpack": ["Str", "Str", "Str", "Str", "Str"]}},
@@ -23,7 +76,12 @@ MODULE = {
             # raises nothing of its own (netloc[0] / netloc[1] / query[0] / both split(sep, 1) unpackings are safe); ValueError only from split_suffix's urlsplit
             "raises": {"ValueError": None},
             # every stem carries one of the eight tags: the first stem is 's:' + scheme when a scheme is present
-            "ensures": [],
+            "ensures": STEMS_ENSURES,
+            "ghost_entry": ["g_S = []", "g_nh = 0", "g_np = 0", "g_nq = 0"],
+            "ghost_before": {"should_process_normally = not suffix_aware": ["g_nh = len(lru)"]},
+            # loops by ordinal: suffix-aware host labels, plain host labels, path segments
+            "loops": {1: app_loop("h:", "g_X"), 2: app_loop("h:", "g_X"),
+                      3: app_loop("p:", "g_X", before=["g_np = len(lru)"], after=["g_nq = len(lru)"])},
         },
     },
 }
